@@ -1,3 +1,4 @@
+pub mod c01;
 pub mod c02;
 pub mod c06;
 pub mod c07;
